@@ -190,7 +190,7 @@ func (e *Enc) runBody(fn *ssa.Function, con *FuncContract, ur *UnitResult) {
 	if con != nil && con.yields != "" {
 		for i, p := range fn.Params {
 			if p.Name() == con.yields && i < len(args) {
-				e.yieldParam, e.yieldName = args[i].t(), p.Name()
+				e.yieldParam, e.yieldName, e.yieldType = args[i].t(), p.Name(), p.Type()
 			}
 		}
 		if e.yieldParam == nil {
